@@ -34,6 +34,21 @@ CLAIMED = {
         technique="TLA+ spec + TLC exhaustive catalogue / simulation, replay into the implementation",
         ref="5/C15",
     ),
+    "C14": dict(
+        level="model_checking",
+        text="CardilloSystem.tla (registry add/remove/pop with token-sequence names and the name map; assemble with the DOF layout "
+             "of ten index spaces over seven contribution kinds incl. couplings) is model-checked exhaustively (NamesUnique, RegistryExact, "
+             "LayoutPartitions, AssembleIdempotent, LayoutIsFunctionOfList); Scatter.tla states what each of the 64 System evaluation methods "
+             "means. Every transition of bounded state graphs and simulated histories are replayed into the real System with stub "
+             "contributions generated from the spec; after each op the registry clauses are evaluated on the real object, after each "
+             "assemble every DOF array and every evaluation method is compared with the dense reference built from the spec layout; "
+             "random systems of real classes are checked against the sum of their local quantities and assembled twice.",
+        note="Bounds: exhaustive design check NC=4..5 contributions, 5..6 operations; replayed graphs NC=3 (3..4 ops) and NC=7 all kinds "
+             "(3..4 ops); simulation 14..24 ops. Stub local methods are integer valued (exact sums) and depend on their arguments. "
+             "Generated names are compared with the spec only informatively. Systems whose members reference non-members are not modelled.",
+        technique="TLA+ spec + TLC exhaustive state graph / simulation, edge-cover replay with spec-generated stubs, spec-exported scatter table",
+        ref="5/C14",
+    ),
 }
 
 NOT_APPLICABLE = {
